@@ -117,6 +117,15 @@ func handle(line string) string {
 			return "BADREQ"
 		}
 		return exprPosRun(string(b))
+	case "DML": // Task S (harness/dmlchan.go)
+		if len(f) != 3 {
+			return "BADREQ"
+		}
+		b, ok := unhex(f[2])
+		if !ok {
+			return "BADREQ"
+		}
+		return dmlRun(f[1], string(b))
 	case "QUERY": // Task X (harness/querychan.go)
 		return queryServe(f)
 	case "TYPE":
